@@ -176,6 +176,8 @@ pub fn deep_families() -> Vec<Deep> {
         Deep { name: "siblings/columns", dialect: "generic", build: |n| format!("CREATE TABLE t ({}c INT)", rep("c INT, ", n)) },
         Deep { name: "siblings/ctes", dialect: "generic", build: |n| format!("WITH {}a AS (SELECT 1) SELECT 1", rep("a AS (SELECT 1), ", n)) },
         Deep { name: "siblings/order-by", dialect: "generic", build: |n| format!("SELECT 1 ORDER BY {}a", rep("a, ", n)) },
+        Deep { name: "chain/pivot", dialect: "generic", build: |n| format!("SELECT * FROM t{}", rep(" PIVOT(SUM(v) FOR n IN ('c'))", n)) },
+        Deep { name: "chain/unpivot", dialect: "generic", build: |n| format!("SELECT * FROM t{}", rep(" UNPIVOT(v FOR n IN (c))", n)) },
         Deep { name: "chain/compound-ident", dialect: "generic", build: |n| format!("SELECT a{}", rep(".a", n)) },
         Deep { name: "siblings/projection", dialect: "generic", build: |n| format!("SELECT {}1", rep("1, ", n)) },
         Deep { name: "siblings/statements", dialect: "generic", build: |n| rep("SELECT 1; ", n) },
